@@ -248,6 +248,8 @@ type SrvConn struct {
 	HandshakeTLS string // "", "ok", or error text
 	closedByUs   bool
 	PauseReads   bool
+	Farewell     string // sent, followed by the closing tag, in answer to the client's closing tag
+	FarewellSent bool
 	TLSResumed   bool // the TLS session of this connection is a resumed one: no certificate was presented on it
 	closer       int
 }
@@ -497,6 +499,16 @@ func (sc *SrvConn) handle(it *Item) {
 		sc.record(it)
 		sc.e.Logf("srv.recv", "%s </stream:stream>", sc.name())
 		if !sc.Dead {
+			if sc.Farewell != "" && sc.Established != "" {
+				// the client has closed its stream; this server still has something to say before it
+				// closes its own (RFC 6120 4.4: the closing entity goes on processing inbound data until it
+				// receives the closing tag of the other side, or times out)
+				sc.FarewellSent = true
+				sc.Send(sc.Farewell + "</stream:stream>")
+				sc.e.Yield("srv.closing")
+				sc.Close()
+				return
+			}
 			if sc.Script.ProbeOnClose && sc.Established == "" {
 				// a peer may still send on a stream the other side has closed
 				sc.Send("<iq xmlns='jabber:client' type='get' id='probe-after-failure' from='" + sc.S.Domain + "'><ping xmlns='urn:xmpp:ping'/></iq>")
